@@ -409,7 +409,9 @@ func (e *h5Engine[T, A]) op(t *tokenReader) (res string) {
 		return "ok " + Is(a.Shape())
 	case "create":
 		path, shape := t.next(), t.ints()
-		var fill T
+		// the fill argument is only a type example in the real code (datasets are zero-initialised, existing ones untouched):
+		// pass a NON-zero value so that any use of it as data shows
+		fill := T(7)
 		return status(e.mkRef(e.fn, path, nil).Create(shape, fill, false))
 	case "write":
 		path, ai := t.next(), t.int()
